@@ -14,7 +14,7 @@ import (
 func init() {
 	register(&Spec{ID: "C01", Title: "Outgoing messages are well-formed TDS packet sequences", Run: runC01,
 		Meta: core.Meta{
-			Explanation: "Structural necessary conditions of well-formed packetisation; the numeric quantification (every length x packet size x call split) is not decided. R01.1 (E-OWN): the transport Conn.conn is referenced in exactly four roles — initialised in NewConn, closed in Conn.Close, reader argument of Packet.ReadFrom in Conn.ReadFrom, writer argument of Packet.WriteTo in sendPacket; any other use bypasses packetisation. R01.2: in sendPacket the write is dominated by Header.MsgType := CurrentHeaderType; the end-of-message flag is set exactly on the edge where len(packet.Data) differs from the LIVE Conn.PacketBodySize() (a call, not a cached value) by or-ing TDS_BUFSTAT_EOM into Header.Status before the write; the byte count returned by the write is compared with Header.Length. R01.3: NewPacket sets Header.Length = size and Data = make(size-8); the trim in sendPackets stores Header.Length = PacketHeaderSize + k and Data = Data[:k] for the same k (the tx queue's indexData). R01.4: in sendPackets the partial-packet test is `i == indexPacket && indexData < PacketBodySize()` with a strict comparison against the live body size; the early `return nil` lies on its onlyFull edge, the trim on the other; the deferred DiscardUntilCurrentPosition runs on every exit. R01.5: SendRemainingPackets calls sendPackets(ctx, false) under the closed protocol and resets the channel on every exit (C03 R03.4). R01.6: the flush reaches its success return only through at least one sendPacket call (path-insensitive on the loop). R01.7: Packet.WriteTo hands the whole serialised packet (packet.Bytes()) to the transport in exactly one Write call on every path — all channels share the transport without a send lock, so one Write per packet is what keeps packets of different channels from interleaving. R01.8: the tx side (header type, tx queue, lastPkgTx) is restored on every exit of SendRemainingPackets, also when the flush fails. R01.10 = R15.7: the deferred DiscardUntilCurrentPosition drops the packet under the position when indexData has reached (>= or ==, not >) the end of its body, after the queue was shifted — otherwise a message that ends exactly on a packet boundary is sent twice. R01.11 = R12.3 (channel id and packet number stamped, the number advanced by one modulo 256). R01.12 = R15.6 (WriteBytes computes the room left in a packet from that packet's own header length and body, never from the live packet size: a shortcut that compares with packetSize() instead of the body size drops the bytes that overhang). R01.13 (E-OWN): every store to Channel.CurrentHeaderType assigns a TDS_BUF_* constant (never a saved or computed value). R01.14 = R14.12 (after a failed sendPacket no further packet of the message is written and the error is returned). R01.15: PacketHeader.Read and PacketHeader.Write place/take MsgType, Status, Length, Channel, PacketNr, Window at offsets 0, 1, 2, 4, 6, 7 (compared with the specification, not with each other). R01.16 (E-OWN): no function statically reachable from (*Conn).ReadFrom stores CurrentHeaderType or lastPkgTx or calls a method of queueTx. R01.9: sendPackets/sendPacket decide 'full' and 'last' with Conn.PacketBodySize() while the tx queue sizes new packets with its packetSize function; both must be the one negotiated size: (*Conn).PacketSize returns Conn.packetSize itself on every path, PacketBodySize returns that value minus PacketHeaderSize, every value stored into Channel.queueTx is NewPacketQueue(<conn>.PacketSize) (the bound method of the channel's connection, or a function literal that only returns that call), and PacketQueue.packetSize is assigned only by NewPacketQueue from its parameter.",
+			Explanation: "R01.17: every image Packet.Bytes returns is a slice made with Header.Length elements. Structural necessary conditions of well-formed packetisation; the numeric quantification (every length x packet size x call split) is not decided. R01.1 (E-OWN): the transport Conn.conn is referenced in exactly four roles — initialised in NewConn, closed in Conn.Close, reader argument of Packet.ReadFrom in Conn.ReadFrom, writer argument of Packet.WriteTo in sendPacket; any other use bypasses packetisation. R01.2: in sendPacket the write is dominated by Header.MsgType := CurrentHeaderType; the end-of-message flag is set exactly on the edge where len(packet.Data) differs from the LIVE Conn.PacketBodySize() (a call, not a cached value) by or-ing TDS_BUFSTAT_EOM into Header.Status before the write; the byte count returned by the write is compared with Header.Length. R01.3: NewPacket sets Header.Length = size and Data = make(size-8); the trim in sendPackets stores Header.Length = PacketHeaderSize + k and Data = Data[:k] for the same k (the tx queue's indexData). R01.4: in sendPackets the partial-packet test is `i == indexPacket && indexData < PacketBodySize()` with a strict comparison against the live body size; the early `return nil` lies on its onlyFull edge, the trim on the other; the deferred DiscardUntilCurrentPosition runs on every exit. R01.5: SendRemainingPackets calls sendPackets(ctx, false) under the closed protocol and resets the channel on every exit (C03 R03.4). R01.6: the flush reaches its success return only through at least one sendPacket call (path-insensitive on the loop). R01.7: Packet.WriteTo hands the whole serialised packet (packet.Bytes()) to the transport in exactly one Write call on every path — all channels share the transport without a send lock, so one Write per packet is what keeps packets of different channels from interleaving. R01.8: the tx side (header type, tx queue, lastPkgTx) is restored on every exit of SendRemainingPackets, also when the flush fails. R01.10 = R15.7: the deferred DiscardUntilCurrentPosition drops the packet under the position when indexData has reached (>= or ==, not >) the end of its body, after the queue was shifted — otherwise a message that ends exactly on a packet boundary is sent twice. R01.11 = R12.3 (channel id and packet number stamped, the number advanced by one modulo 256). R01.12 = R15.6 (WriteBytes computes the room left in a packet from that packet's own header length and body, never from the live packet size: a shortcut that compares with packetSize() instead of the body size drops the bytes that overhang). R01.13 (E-OWN): every store to Channel.CurrentHeaderType assigns a TDS_BUF_* constant (never a saved or computed value). R01.14 = R14.12 (after a failed sendPacket no further packet of the message is written and the error is returned). R01.15: PacketHeader.Read and PacketHeader.Write place/take MsgType, Status, Length, Channel, PacketNr, Window at offsets 0, 1, 2, 4, 6, 7 (compared with the specification, not with each other). R01.16 (E-OWN): no function statically reachable from (*Conn).ReadFrom stores CurrentHeaderType or lastPkgTx or calls a method of queueTx. R01.9: sendPackets/sendPacket decide 'full' and 'last' with Conn.PacketBodySize() while the tx queue sizes new packets with its packetSize function; both must be the one negotiated size: (*Conn).PacketSize returns Conn.packetSize itself on every path, PacketBodySize returns that value minus PacketHeaderSize, every value stored into Channel.queueTx is NewPacketQueue(<conn>.PacketSize) (the bound method of the channel's connection, or a function literal that only returns that call), and PacketQueue.packetSize is assigned only by NewPacketQueue from its parameter.",
 			NotDecided:  "Byte-exact concatenation of bodies, 'every packet but the last is full' as arithmetic and packet-size changes between messages are not decided.",
 			Assumptions: []string{"Packet.WriteTo serialises header then data (C15 / packet.go)", "channel id and packet number stamping is C12's R12.3"},
 		}})
@@ -31,7 +31,7 @@ func runC01(r *core.Run) {
 	r.Rule("R01.7", "a packet reaches the transport in one Write call (header and body cannot be torn apart by another channel)", 1, false)
 	r.Rule("R01.8", "the tx side is reset on every exit of a flush (nothing is left behind for the next message)", 2, false)
 	r.Rule("R01.9", "one packet size in force: the size that sizes new tx packets and the body size the send path reasons with are the same field", 4, false)
-	defer c01OneSize(r)
+	defer c01OneSize(r, "R01.9")
 	r.Rule("R01.10", "a packet that was sent is discarded, also when it was filled exactly (R15.7)", 1, false)
 	defer c15Discard(r, "R01.10")
 	r.Rule("R01.11", "outgoing packets carry the channel id and consecutive packet numbers modulo 256 (R12.3)", 3, false)
@@ -46,6 +46,8 @@ func runC01(r *core.Run) {
 	defer c01HeaderLayout(r)
 	r.Rule("R01.16", "the transmit side of a channel is written by the sending goroutine only", 1, false)
 	defer c01TxOwnership(r)
+	r.Rule("R01.17", "the wire image of a packet has exactly Header.Length bytes", 1, false)
+	defer c01PacketImage(r)
 
 	fConn := p.Field("tds", "Conn", "conn")
 	roles := map[*ssa.Function]string{
@@ -582,7 +584,7 @@ func c01SingleWrite(r *core.Run, rule string) {
 }
 
 // c01OneSize: R01.9.
-func c01OneSize(r *core.Run) {
+func c01OneSize(r *core.Run, rule string) {
 	p := r.Prog
 	fPS := p.Field("tds", "Conn", "packetSize")
 	fQTx := p.Field("tds", "Channel", "queueTx")
@@ -616,7 +618,7 @@ func c01OneSize(r *core.Run) {
 			okPS = false
 		}
 	}
-	r.Check(okPS, "R01.9", "(*Conn).PacketSize returns Conn.packetSize", psFn.Pos(), "every return is the field itself",
+	r.Check(okPS, rule, "(*Conn).PacketSize returns Conn.packetSize", psFn.Pos(), "every return is the field itself",
 		"PacketSize() can return something other than the negotiated Conn.packetSize: new tx packets are sized differently from the body size sendPackets/sendPacket reason with (short packets flagged EOM, or packets longer than the size in force)")
 	okBody := len(core.Returns(bodyFn)) > 0
 	for _, ret := range core.Returns(bodyFn) {
@@ -629,7 +631,7 @@ func c01OneSize(r *core.Run) {
 			okBody = false
 		}
 	}
-	r.Check(okBody, "R01.9", "(*Conn).PacketBodySize returns Conn.packetSize - PacketHeaderSize", bodyFn.Pos(), "every return is the negotiated size minus the header size",
+	r.Check(okBody, rule, "(*Conn).PacketBodySize returns Conn.packetSize - PacketHeaderSize", bodyFn.Pos(), "every return is the negotiated size minus the header size",
 		"PacketBodySize() is not the negotiated packet size minus the header size: 'full' and 'last packet' are judged against a different size than packets are built with")
 
 	// stores to Channel.queueTx and PacketQueue.packetSize
@@ -648,13 +650,13 @@ func c01OneSize(r *core.Run) {
 				switch core.FieldOfAddr(fa) {
 				case fQPS:
 					good := fn == npq && st.Val == ssa.Value(npq.Params[0])
-					r.Check(good, "R01.9", core.FuncName(fn)+": PacketQueue.packetSize assigned", st.Pos(), "NewPacketQueue stores its parameter", "a queue's packet size function is replaced outside NewPacketQueue (or by something other than its parameter)")
+					r.Check(good, rule, core.FuncName(fn)+": PacketQueue.packetSize assigned", st.Pos(), "NewPacketQueue stores its parameter", "a queue's packet size function is replaced outside NewPacketQueue (or by something other than its parameter)")
 				case fQTx:
 					nTx++
 					key := core.FuncName(fn) + ": Channel.queueTx assigned"
 					call, ok := st.Val.(*ssa.Call)
 					if !ok || core.StaticCallee(call) != npq {
-						r.Bad("R01.9", key, st.Pos(), "the tx queue is not built by NewPacketQueue")
+						r.Bad(rule, key, st.Pos(), "the tx queue is not built by NewPacketQueue")
 						continue
 					}
 					why := ""
@@ -677,13 +679,13 @@ func c01OneSize(r *core.Run) {
 							}
 						}
 					}
-					r.Check(why == "", "R01.9", key, st.Pos(), "NewPacketQueue(conn.PacketSize)", why)
+					r.Check(why == "", rule, key, st.Pos(), "NewPacketQueue(conn.PacketSize)", why)
 				}
 			}
 		}
 	}
 	if nTx == 0 {
-		r.Unknown("R01.9", "Channel.queueTx assigned", token.NoPos, "no assignment of Channel.queueTx found")
+		r.Unknown(rule, "Channel.queueTx assigned", token.NoPos, "no assignment of Channel.queueTx found")
 	}
 }
 
